@@ -8,12 +8,13 @@ import Driver.Meio
 import Driver.Serial
 import Driver.SS
 import Driver.RQ
+import Driver.FH
 open Lean
 
 namespace Driver
 
 def allHandlers : List (String × Handler) :=
-  Driver.WW.handlers ++ Driver.Sim.handlers ++ Driver.Helpers.handlers ++ Driver.MP.handlers ++ Driver.Graph.handlers ++ Driver.Meio.handlers ++ Driver.Serial.handlers ++ Driver.SS.handlers ++ Driver.RQ.handlers
+  Driver.WW.handlers ++ Driver.Sim.handlers ++ Driver.Helpers.handlers ++ Driver.MP.handlers ++ Driver.Graph.handlers ++ Driver.Meio.handlers ++ Driver.Serial.handlers ++ Driver.SS.handlers ++ Driver.RQ.handlers ++ Driver.FH.handlers
 
 def dispatch (line : String) : String :=
   match Json.parse line with
